@@ -481,7 +481,9 @@ func (sc *scenario) doImport(rec *kit.Recorder, attempts *int) bool {
 	case mode == 2:
 		k := sc.rng.IntN(n) // 0 .. n-1 pages
 		syncs := 0
+		var ops []string
 		out, err := sc.s.importBytes(data, k, func(op, name string) {
+			ops = append(ops, op+" "+name)
 			if op == "sync" && strings.HasSuffix(name, ".log") {
 				syncs++
 			}
@@ -489,6 +491,11 @@ func (sc *scenario) doImport(rec *kit.Recorder, attempts *int) bool {
 		if err != nil {
 			sc.infra("cancelled import: %v", err)
 			return false
+		}
+		if sc.kind == "msg" && kit.Str(out, "err") != "" {
+			if p := sc.pagesIn(sc.s.project()); p > max(syncs, sc.pagesIn(sc.lastProj)) {
+				sc.infra("DEBUG cancelled import after %d: %d pages present, %d WAL syncs, before %d; ops %v; out %v", k, p, syncs, sc.pagesIn(sc.lastProj), ops, out)
+			}
 		}
 		kind := []string{"abort", "restart"}[sc.rng.IntN(2)]
 		if kind == "restart" {
